@@ -54,3 +54,11 @@ def unary_rules(lang):
 
 def cat_dict_en():
     return _load('cat_dict.en.jsonnet')['cat_dict']
+
+
+# The categories a Japanese sentence may end in (conjuncts of the sentence-sequence rule SSEQ): part of the specification, written
+# down here and not read from the code under test (depccg/grammar/ja.py holds a list of its own, depccg/argparse.py another).
+JA_ROOTS_SPEC = ['NP[case=nc,mod=nm,fin=f]', 'NP[case=nc,mod=nm,fin=t]', 'S[mod=nm,form=attr,fin=t]', 'S[mod=nm,form=base,fin=f]',
+                 'S[mod=nm,form=base,fin=t]', 'S[mod=nm,form=cont,fin=f]', 'S[mod=nm,form=cont,fin=t]', 'S[mod=nm,form=da,fin=f]',
+                 'S[mod=nm,form=da,fin=t]', 'S[mod=nm,form=hyp,fin=t]', 'S[mod=nm,form=imp,fin=f]', 'S[mod=nm,form=imp,fin=t]',
+                 'S[mod=nm,form=r,fin=t]', 'S[mod=nm,form=s,fin=t]', 'S[mod=nm,form=stem,fin=f]', 'S[mod=nm,form=stem,fin=t]']
